@@ -32,6 +32,9 @@ def evaluate(case):
         text = str(t.ch_text(no_color=True))
         import ak.color as C
         lines = [tables.line_text(C, ln).plain_text() for ln in t.ch_text(no_color=True)]
+        kept = list(t.ch_text(no_color=True))       # line objects collected first, looked at afterwards
+        if [tables.line_text(C, ln).plain_text() for ln in kept] != lines:
+            f.append(("lines_collected_first_differ", ""))
     except Exception as e:   # noqa
         import traceback
         tb = traceback.extract_tb(e.__traceback__)[-1]
